@@ -230,7 +230,12 @@ impl Interp {
             self.cur_line = line;
             let mut rs = match &f {
                 Value::Func(c) => self.call_lua(p, c.clone(), vec![state.clone(), ctrl])?,
-                _ => self.call_value(p, &f, vec![state.clone(), ctrl])?,
+                _ => {
+                    self.for_iter = matches!(f, Value::Native(_));
+                    let r = self.call_value(p, &f, vec![state.clone(), ctrl]);
+                    self.for_iter = false;
+                    r?
+                }
             };
             rs.resize(nvars as usize, Value::Nil);
             if rs[0].is_nil() {
